@@ -30,9 +30,11 @@ import (
 // After every exchange the cache entries are read back (and, at the end, a dump of each cache).
 //
 // Oracle (the statement): cached answers never contain an OPT; the reply has exactly one OPT iff the client's query
-// had one, DO mirrored; an option in the reply must have been forwarded explicitly (code listed by a forwarder of the
-// chain) from the OPT of the upstream's answer of THIS exchange; an option in the upstream query must be this client's
-// and forwarded explicitly (or ecs_handler's preset).
+// had one, DO mirrored; an option in the reply must have been forwarded explicitly (code listed by a forward_edns0opt of
+// the chain; the client-subnet option also by an ecs_handler with forward set, which forwards the CLIENT's option: only
+// if this client's query carried one - the upstream's echo of the handler's own preset / send address is not for a client
+// that sent none) from the OPT of the upstream's answer of THIS exchange; an option in the upstream query must be this
+// client's and forwarded explicitly (or ecs_handler's preset / the client address with send).
 
 type eopt15 struct {
 	code uint16
@@ -174,6 +176,27 @@ type cacheProbe15 struct {
 	last string
 }
 
+// ecsArgs15 draws an ecs_handler configuration; own is the payload (third address byte) of the option the handler makes
+// itself when it does not forward the client's: the preset address, else the client address (deliver03: 203.0.113.9)
+// with send, else -1.
+func ecsArgs15(r *Run) (ecs_handler.Args, int) {
+	a, own := ecs_handler.Args{Forward: r.Rng.Intn(3) != 0, Send: r.Rng.Intn(2) == 0}, -1
+	if a.Send {
+		own = 113
+	}
+	if r.Rng.Intn(2) == 0 {
+		a.Preset, own = "198.51.100.7", 100
+	}
+	return a, own
+}
+
+func ecsModel15(a ecs_handler.Args, own int) string {
+	if own < 0 {
+		return "e:" + b01(a.Forward) + ":-"
+	}
+	return fmt.Sprintf("e:%s:%d", b01(a.Forward), own)
+}
+
 func countOpt15(m *dns.Msg) int {
 	n := 0
 	for _, rr := range m.Extra {
@@ -192,7 +215,8 @@ func cacheLife15(r *Run, it int) {
 	plugins["up"] = up
 	allCodes := []uint16{dns.EDNS0COOKIE, 65001, 65002, dns.EDNS0PADDING, dns.EDNS0SUBNET}
 	fwdCodes := map[uint16]bool{}
-	ecsForward, ecsPreset, hasEcs := false, false, false
+	ecsForward := false
+	ecsOwn := map[int]bool{} // payloads (third address byte) of the client-subnet options ecs_handler may make itself
 	var probes []*cacheProbe15
 	var rules []sequence.RuleArgs
 	var desc, modelChain []string
@@ -262,20 +286,19 @@ func cacheLife15(r *Run, it int) {
 			desc = append(desc, "ttl")
 			modelChain = append(modelChain, "t")
 		case "ecs":
-			a := ecs_handler.Args{Forward: r.Rng.Intn(2) == 0}
-			if r.Rng.Intn(2) == 0 {
-				a.Preset = "198.51.100.7"
-				ecsPreset = true
-			}
+			a, own := ecsArgs15(r)
 			ecsForward = ecsForward || a.Forward
-			hasEcs = true
+			if own >= 0 {
+				ecsOwn[own] = true
+			}
 			p, err := ecs_handler.NewHandler(a)
 			if err != nil {
 				r.Note("cacheLife15: " + err.Error())
 				return
 			}
 			plugins[tag] = p
-			desc = append(desc, fmt.Sprintf("ecs_handler(forward=%v,preset=%v)", a.Forward, a.Preset != ""))
+			desc = append(desc, fmt.Sprintf("ecs_handler(forward=%v,preset=%v,send=%v)", a.Forward, a.Preset != "", a.Send))
+			modelChain = append(modelChain, ecsModel15(a, own))
 		}
 		rules = append(rules, sequence.RuleArgs{Exec: "$" + tag})
 	}
@@ -303,6 +326,7 @@ func cacheLife15(r *Run, it int) {
 		q.SetQuestion(name, qtype)
 		q.Id, q.CheckingDisabled, q.RecursionDesired = id, cd, r.Rng.Intn(2) == 0
 		var copts []eopt15
+		clientEcs := false
 		cOp, hasC, cDo := "-", r.Rng.Intn(5) != 0, false
 		if k == 0 && r.Rng.Intn(2) == 0 {
 			hasC = true
@@ -320,6 +344,9 @@ func cacheLife15(r *Run, it int) {
 					copts = append(copts, e)
 					o.Option = append(o.Option, mkOpt15(e))
 				}
+			}
+			for _, e := range copts {
+				clientEcs = clientEcs || e.code == dns.EDNS0SUBNET
 			}
 			q.Extra = append(q.Extra, o)
 			cOp = fmt.Sprintf("%d:%s:%s", size, b01(cDo), showOpts15(copts))
@@ -392,13 +419,17 @@ func cacheLife15(r *Run, it int) {
 						fromUp = fromUp || u == e
 					}
 				}
-				explicit := fwdCodes[e.code] || (e.code == dns.EDNS0SUBNET && ecsForward)
+				explicit := fwdCodes[e.code] || (e.code == dns.EDNS0SUBNET && ecsForward && clientEcs)
 				if !fromUp {
 					fd["option"] = fmt.Sprintf("%d.%d", e.code, e.pay)
 					r.Fail("the reply carries an EDNS0 option that is not from the upstream's answer of this exchange (an earlier exchange's option came back through the cache)", fd)
 				} else if !explicit {
 					fd["option"] = fmt.Sprintf("%d.%d", e.code, e.pay)
-					r.Fail("the reply carries an upstream EDNS0 option that no plugin forwards explicitly", fd)
+					if e.code == dns.EDNS0SUBNET && ecsForward {
+						r.Fail("the reply carries the upstream's client-subnet option although the client's query had none (ecs_handler forward applies to the client's own option; no plugin forwards this one explicitly)", fd)
+					} else {
+						r.Fail("the reply carries an upstream EDNS0 option that no plugin forwards explicitly", fd)
+					}
 				}
 			}
 		}
@@ -422,7 +453,7 @@ func cacheLife15(r *Run, it int) {
 				for _, c := range copts {
 					mine = mine || c == e
 				}
-				ok := (mine && (fwdCodes[e.code] || (e.code == dns.EDNS0SUBNET && ecsForward))) || (e.code == dns.EDNS0SUBNET && ecsPreset && e.pay == 100)
+				ok := (mine && (fwdCodes[e.code] || (e.code == dns.EDNS0SUBNET && ecsForward))) || (e.code == dns.EDNS0SUBNET && ecsOwn[e.pay])
 				if !ok {
 					fd["option"] = fmt.Sprintf("%d.%d", e.code, e.pay)
 					r.Fail("the query sent upstream carries an EDNS0 option that is not this client's, forwarded explicitly", fd)
@@ -472,8 +503,8 @@ func cacheLife15(r *Run, it int) {
 			r.Count("life:dump-checked")
 		}
 	}
-	// ---- the same exchanges on the model (one cache, forwarders and ttl only; entries live 30 s or more)
-	if len(probes) == 1 && !hasEcs && time.Since(t0) < 3*time.Second {
+	// ---- the same exchanges on the model (one cache; forwarders, ecs_handler and ttl; entries live 30 s or more)
+	if len(probes) == 1 && time.Since(t0) < 3*time.Second {
 		r.Line("life "+strings.Join(modelChain, ",")+" "+strings.Join(txOps, " "), strings.Join(txImpl, " ~ "))
 		r.Count("life:model-replayed")
 	}
